@@ -25,7 +25,7 @@ var R = hx.NewRecorder("C13", "cases = (two long-term keys, two ephemeral keys, 
 var cv = rsm2.Std
 
 func TestMain(m *testing.M) {
-	R.Require("V_leading_zero", "eph_leading_zero", "id_empty", "klen%32!=0", "klen>32", "offcurve", "V_infinite", "id_too_long", "V_infinite_own_t_zero", "offcurve_foreign_curve", "offcurve_foreign_b")
+	R.Require("V_leading_zero", "eph_leading_zero", "id_empty", "klen%32!=0", "klen>32", "offcurve", "V_infinite", "id_too_long", "key_all_zero", "V_infinite_own_t_zero", "offcurve_foreign_curve", "offcurve_foreign_b")
 	hx.Main(m, R)
 }
 
@@ -299,6 +299,38 @@ func TestC13_Hostile(t *testing.T) {
 		}
 		R.Case(true, hx.HashKey("hostile", kind, role, x.Bytes(), y.Bytes(), px.Bytes()), cls, "hostile:"+kind)
 	})
+}
+
+// Very short keys: K is the first klen bytes of the KDF output, and for klen = 1 (2) one exchange in 256 (65536) has
+// K = 00 (0000) - a perfectly good outcome of GM/T 0003.3, which knows no "zero key" failure in the key exchange. The
+// identity of the initiator is searched (reference only) until the prescribed one-byte key is 00; the library must
+// then return exactly that.
+func TestC13_ZeroKeyBytes(t *testing.T) {
+	n := 2
+	if hx.Thorough() {
+		n = 12
+	}
+	for i := 0; i < n; i++ {
+		mk := func(j int64) gen.Key {
+			d := new(big.Int).Lsh(big.NewInt(int64(hx.Seed())*100+int64(i)*10+j+3), 150)
+			d.Add(d, big.NewInt(0x1234567+j))
+			return gen.Key{D: d, Pub: cv.BaseMul(d)}
+		}
+		c := kx{a: mk(1), b: mk(2), ra: mk(3), rb: mk(4), idb: []byte("responder"), klen: 1}
+		found := false
+		for ctr := 0; ctr < 4000 && !found; ctr++ {
+			c.ida = []byte(fmt.Sprintf("initiator-%d", ctr))
+			k, _, _, err := cv.Exchange(1, c.ida, c.idb, true, c.a.D, c.ra.D, c.b.Pub, c.rb.Pub)
+			if err == nil && len(k) == 1 && k[0] == 0 {
+				found = true
+			}
+		}
+		if !found {
+			t.Fatalf("harness: no identity with a zero one-byte key among 4000")
+		}
+		run(t, c)
+		R.Case(true, hx.HashKey("zerokey", c.ida, i), "key_all_zero")
+	}
 }
 
 func TestC13_Replay(t *testing.T) {
